@@ -45,6 +45,8 @@ func extractionSchema(client bool) *Schema {
 	addMessage(f, message("NotFoundError", field("resource", "string"), field("id", "string")))
 	// one message per codec feature, so that the emitted codec functions exist as units (C05): a singular signed and
 	// unsigned NUMBER-encoded 64-bit field next to an ordinary field
+	// a root-unwrap list of plain messages: the body is a bare JSON array whose elements keep their proto3 JSON form
+	addMessage(f, message("NoteList", withOpt(repeated(msgField("items", ".ext.v1.Note")), "sebuf.http.unwrap", true)))
 	addMessage(f, message("Counter", withOpt(field("n", "int64"), "sebuf.http.int64_encoding", "INT64_ENCODING_NUMBER"),
 		withOpt(field("u", "uint64"), "sebuf.http.int64_encoding", "INT64_ENCODING_NUMBER"), field("label", "string")))
 	hdr := func(name, typ, format string, required bool) M {
